@@ -539,9 +539,25 @@ def pmap(fn, items, procs=None, warm=True):
     return (first or []) + rest
 
 
+def process_local_tqdm_lock():
+    """tqdm guards its instance registry with a multiprocessing lock that every fork of the process that created it shares: one
+    process that dies or is killed while holding it blocks all the others for ever (seen twice: fault-injection children, a killed run).
+    A process-local lock instead - set here before tqdm creates its own, and again in every forked worker."""
+    try:
+        import threading
+        import tqdm
+        tqdm.tqdm.set_lock(threading.RLock())
+    except Exception:
+        pass
+
+
+process_local_tqdm_lock()
+
+
 def _worker_init():
     """Pool workers compile what they need in memory but never save to numba's on-disk cache: concurrent savers corrupt its index
     (an entry can end up pointing at another specialisation's code, which then silently computes garbage)."""
+    process_local_tqdm_lock()
     try:
         import numba.core.caching as nc
         nc.Cache.save_overload = lambda self, sig, data: None
